@@ -1,13 +1,90 @@
-"""C04 — every evaluation is bounded by the configured limits (DESIGN §3 C04)."""
-import os
+"""C04 — every evaluation is bounded by the configured limits (DESIGN §3 C04).
+
+E2 + hook H1.  One harness boot per limit configuration (the limits are read when the driver starts); every program of
+the corpus is run once per configuration under a monitor that looks at every instruction boundary."""
+import itertools, os
 import vlib
 LEVEL = "exploration"
 SRC = ["h/h_c04.c", "h/h_vmerr.c", "wrap/w_vmerr_simulate.c", "wrap/w_vmerr_errctx.c"]
 STEM = ["simulate.c", "error_context.c"]
 JOBS = int(os.environ.get("VERIF_JOBS", "16"))
 
+# MaxEvaluationCost, MaxCallDepth, StackSize, MaxArraySize=MaxMappingSize, MaxStringLength, MaxBufferSize
+GRID = [(400, 60), (12, 6), (80, 40), (64, 8), (200, 32), (64, 16)]
+
+
+def configs(tier):
+    base = tuple(g[0] for g in GRID)
+    if tier == "quick":
+        out = [base]
+        for i in range(len(GRID)):
+            c = list(base); c[i] = GRID[i][1]; out.append(tuple(c))
+        return out
+    return [tuple(c) for c in itertools.product(*GRID)]
+
+
 def build(ck):
     return {"h_c04": ck.harness("h_c04", SRC, profile="asan", replace_stem=STEM)}
 
+
+RULE = ("configurations = MaxEvaluationCost {60,400} x MaxCallDepth {6,12} x StackSize {40,80} x MaxArraySize=MaxMappingSize {8,64} x "
+        "MaxStringLength {32,200} x MaxBufferSize {16,64} (quick: the base configuration and the 6 one-factor changes; thorough: all 64), "
+        "each a separate boot; programs (260 per configuration): 8 loop forms (while(1), for(;;), do-while, while(i--), for with constant / "
+        "local bound, nested foreach over array / mapping) x 7 bodies (empty, call, catch(expr), catch{block}, efun with callback, "
+        "catch of an endless loop, call_other); catch nestings 1..3 around an endless loop, a loop after a caught one, while(1) around "
+        "catch(catch(loop)); endless recursion: direct, mutual, 3-cycle, through local/functional/anonymous/efun/bound function pointers, "
+        "call_other, simul_efun, filter (funptr, by name, mapping), map (array, mapping, string), sort_array, unique_array, unique_mapping, "
+        "implode with function, catch nestings 1..3, catch inside a loop, create() of a clone, wide frames, 12 arguments, varargs spread; "
+        "wide expressions (aggregates and calls with 30/60/120 locals, globals, strings, numbers); 61 value builders (+, +=, int/float "
+        "conversion, repeat_string, replace_string, sprintf padding, implode, range assignment, read_bytes/read_file/read_buffer, "
+        "save/restore_variable, allocate*, explode, map/filter/sort/unique, keys/values, call_other on an array, all_inventory, children, "
+        "mapping insert by index, m+m, m+=m, m*m, buffer +, literal aggregates of 70) each in a 9-step doubling or +1 loop that crosses "
+        "the limit, once plain and once with every step inside a catch; refused mapping insert / array append repeated 1,2,3,4,8,16,32 "
+        "times inside catch followed by a full consistency check of the container.  Monitor (hook H1) at EVERY instruction boundary: "
+        "instructions <= 3 x MaxEvaluationCost, control frames <= MaxCallDepth, sp < end_of_stack, size of the value on top of the stack; "
+        "at the end every value reachable from the object's variables and the return value; a limit error raised (recorded inside "
+        "error_handler()) while code after the outermost catch still runs = catch swallowed it; abort at 20 x the bound = runaway")
+
+ASSUME = ["the program under test is compiled and create()d with a large budget; the monitored evaluation is run() entered through a driver-style apply",
+          "value builders and refused-then-used programs run with MaxEvaluationCost 200000 (they are about the size limits)",
+          "sizes are checked for the value on top of the stack at every instruction boundary and for everything reachable at the end of "
+          "the evaluation, not for values buried deeper in the stack in between",
+          "class instances have no configured size limit"]
+
+
+def fix_replays(ck):
+    for key, info in ck.fails.items():
+        lines = (info["record"].get("desc") or "").split("\n")
+        if len(lines) >= 2 and lines[0].startswith("prog=") and lines[1].startswith("conf="):
+            info["args"] = ["--" + lines[1], "--" + lines[0]]
+            info["fail"]["index"] = 0
+
+
 def run(ck):
-    ck.finish({})
+    exe = build(ck)["h_c04"]
+    cs = configs(ck.tier)
+    per = 20 if ck.tier == "quick" else 30
+    for c in cs:
+        tag = "c" + "-".join(str(x) for x in c)
+        ck.enum(exe, ["--conf=" + ",".join(str(x) for x in c)], tag, batch=8, deadline_s=per, jobs=JOBS, timeout_ms=60000)
+    fix_replays(ck)
+    cov = vlib.enum_coverage(ck.parts, RULE, "evaluations_run",
+                             extra={"configurations": len(cs),
+                                    "limit_error_raised": sum(p.get("counters", {}).get("limit_error_raised", 0) for p in ck.parts),
+                                    "any_error_raised": sum(p.get("counters", {}).get("any_error_raised", 0) for p in ck.parts)})
+    ck.finish(cov, assumptions=ASSUME)
+
+
+def selftest(ck):
+    """break the observation (not the repo): the instruction bound and the swallowed-limit-error oracle must fire"""
+    exe = build(ck)["h_c04"]
+    bad = 0
+    for st, sub in ((1, "C04:instructions-exceed-3x-MaxEvaluationCost"), (2, "C04:catch-swallowed-limit-error")):
+        ck2 = vlib.Check("C04", "quick", 0, LEVEL)
+        ck2.enum(exe, ["--conf=400,12,80,64,200,64", "--selftest=%d" % st, "--prog=build:array:v+=v:each-step-in-catch"], "selftest%d" % st, batch=8, jobs=JOBS)
+        hit = [k for k in ck2.fails if sub in k]
+        if ck2.broken or not hit:
+            print("SELFTEST-FAILED C04 variant %d: no key containing %r (%s)" % (st, sub, ck2.broken or sorted(ck2.fails)[:5])); bad = 1
+        else:
+            print("selftest %d ok: %s" % (st, hit[:2]))
+    return bad
